@@ -550,7 +550,7 @@ def corpus():
 def generate(tier, seed, with_when=True):
     """Returns the list of programs of the tier (fixed corpus first), ids 1..n."""
     quick = tier == "quick"
-    n = 420 if quick else 8000
+    n = 420 if quick else 6000
     max_stmts, max_depth = (8, 2) if quick else (10, 3)
     rnd = random.Random(1000003 * seed + (1 if quick else 2))
     g = _Gen(rnd, max_stmts, max_depth, with_when)
